@@ -116,7 +116,20 @@ func showDecoded(msg *entities.Message, err error) string {
 		}
 		return fmt.Sprintf("tpl %s %d %s", hdr, recs[0].GetTemplateID(), showFieldList(ies))
 	}
-	return "data " + hdr + " " + ShowRecords(set.GetRecords())
+	return "data " + hdr + " " + ShowRecords(set.GetRecords()) + showIdents(set.GetRecords())
+}
+
+// showIdents: which elements the delivered values belong to (first record), as DecShow.v show_idents.
+func showIdents(recs []entities.Record) string {
+	if len(recs) == 0 {
+		return ""
+	}
+	var sb strings.Builder
+	sb.WriteString(" E")
+	for _, e := range recs[0].GetOrderedElementList() {
+		sb.WriteString(" " + showField(e.GetInfoElement()))
+	}
+	return sb.String()
 }
 
 func showSnapshot(cp *collector.CollectingProcess) string {
